@@ -232,3 +232,39 @@ Definition spec_rt_ok (i : input) (res : val) : bool :=
       end
   | _ => true
   end.
+
+(* ------------------------------------------------------------------ strings *)
+(* a token as str.split() produces them: non-empty, no whitespace *)
+Definition tok_ok (t : str) : bool := negb (is_nil t) && forallb (fun x => negb (is_ws x)) t.
+(* premise on the external element parser: it renders without whitespace *)
+Definition lf_tok (lf : str -> option str -> option leaf) : Prop :=
+  forall k r l, lf k r = Some l -> tok_ok k = true -> tok_ok (lstr l) = true.
+
+(* ------------------------------------------------------------------ structural positions *)
+(* the tokens at structural positions: with renames on, "uri -> name" counts as the one
+   element "uri" (the name may be any token, even a parenthesis) *)
+Fixpoint skel (c : cfg) (toks : list str) : list str :=
+  match toks with
+  | [] => []
+  | k :: rest =>
+      match rest with
+      | a :: _ :: rest'' =>
+          if renames c && str_eqb a s_arrow &&
+             match classify c k with TPlain => true | _ => false end
+          then k :: skel c rest'' else k :: skel c rest
+      | _ => k :: skel c rest
+      end
+  end.
+
+(* evaluation without transitive_use_atoms, nothing else conditional: what is handed back *)
+Definition no_cond (d : list node) : bool := forallb (fun n => negb (has_cond n)) d.
+
+(* comparison (B): a string the implementation ACCEPTED has balanced parentheses, no dangling
+   operator / conditional and no empty group on its structural positions *)
+Definition spec_shape_ok (i : input) (res : val) : bool :=
+  let '(kd, s, _, _) := i in
+  match res with
+  | VErr _ => true
+  | _ => let sk := skel (cfg_of kd) (split_ws s) in
+         balance 0 sk && negb (dangling (cfg_of kd) sk) && negb (empty_group sk)
+  end.
